@@ -17,7 +17,7 @@ Definition refute3 : list event :=
   [Deliver [H 1 0; H 2 1] [] []; Deliver [H 3 2] [] []; Deliver [H 11 2] [] []; Lock 1 [] [11]].
 
 Definition rank_of (h : N) : nat :=
-  N.to_nat (match h with 0 => 0 | 1 => 1 | 2 => 2 | 3 => 3 | 11 => 3 | 9 => 1 | 7 => 2 | 8 => 2 | 6 => 3 | _ => 0 end).
+  N.to_nat (match h with 0 => 0 | 1 => 1 | 2 => 2 | 3 => 3 | 11 => 3 | 9 => 1 | 7 => 2 | 8 => 2 | 6 => 3 | 13 => 4 | 12 => 3 | _ => 0 end).
 
 Ltac wf_tac :=
   split; [exists rank_of; intros x Hx; cbn in Hx;
@@ -83,4 +83,19 @@ Lemma refuted :
 Proof.
   intros HS. destruct refute1_violates as [(Hwf & tr & Hrun & Hbad) _].
   apply Hbad. exact (proj2 (HS 0 refute1 Hwf tr Done Hrun)).
+Qed.
+
+(* a history with an orphan subtree, a fork, a lock and a later extension that meets every hypothesis of the
+   partial theorem (non-vacuity) *)
+Definition clean_example : list event :=
+  [Deliver [H 7 9; H 6 7] [6] []; Deliver [H 9 0] [] []; Deliver [H 8 9] [] [8]; Lock 1 [6; 7] [];
+   Deliver [H 13 6; H 12 8] [12; 13] []].
+Lemma clean_example_wf : wf_headers 0 (all_headers clean_example).
+Proof. wf_tac. Qed.
+Lemma clean_example_ok :
+  wf_headers 0 (all_headers clean_example) /\ excluded 0 clean_example = None /\
+  exists tr, run 0 clean_example = (tr, Done) /\ map s_chain tr = [[]; [9; 7; 6]; [9; 7; 6]; [9; 7; 6]; [9; 7; 6; 13]].
+Proof.
+  split; [exact clean_example_wf|]. split; [vm_compute; reflexivity|].
+  eexists. split; vm_compute; reflexivity.
 Qed.
